@@ -14,6 +14,8 @@ def main():
         try:
             m = importlib.import_module('harness.props.%s' % pid.lower())
         except ImportError:
+            m = None
+        if m is None or not getattr(m, 'CLAIM', True):
             na.append({'property_id': pid, 'reason': 'check not built yet in this round (see DESIGN.md section 5 for the planned theorem and tie); not a claim that the technique cannot apply'})
             continue
         checks.append({
